@@ -277,7 +277,11 @@ Definition call_flags (q : creq) : N :=
 
 Definition call_msg (q : creq) (serial : N) (body : bytes) : BusRoute.bmsg :=
   BusRoute.mkB true 1 (call_flags q) serial (Some (q_path q)) (q_iface q) (Some (q_member q)) None None
-               (q_dest q) None (q_sig q) body (view_args (q_sig q) (q_args q)) false.
+               (q_dest q) None (q_sig q) body None false.
+  (* g_args - the decoded body as match rules and the bus's own methods read it - is only
+     looked at for messages without destination or addressed to org.freedesktop.DBus
+     (Model/BusRoute.v); this model sends neither, and carries None there, for calls as for
+     replies ([view_args] above is what it would be) *)
 
 Definition with_serial (st : Calls.state) (n : N) : Calls.state :=
   Calls.State n (Calls.st_next_id st) (Calls.st_pending st) (Calls.st_timers st) (Calls.st_done st)
